@@ -22,10 +22,17 @@ TARGETS = ['PyIpmi.Props.C20', 'drv_c20']
 LEVEL = 'proof'
 RULE = ('pyipmi.ipmitool.main() is run in-process (sys.argv, stdout/stderr, pyipmi.interfaces.create_interface and the '
         'COMMANDS handlers wrapped from outside) against a byte-level BMC stub: (1) every table entry x argument '
-        'vectors whose numbers are written as decimal / 0x / 0X / 0o / 0b / underscore / blank-padded / signed literals, '
-        'each also run as the corresponding direct API call on a fresh identical BMC (request sequences with their '
-        'targets, outcome class and exit status compared), on a full and a minimal (C1h) BMC, and with a completion code '
-        'or a timeout injected at every (sampled) request index; (2) option vectors: all options in -c v / -cv / grouped-flag '
+        'vectors whose numbers are written as decimal / 0x / 0X / 0o / 0b / underscore / blank-padded / signed / leading-zero '
+        'literals (decimal and hex MUST be read, whatever int() the entry uses; the other forms are compared with the model '
+        'of that int()), each also run as the corresponding direct API call on a fresh identical BMC (request sequences with '
+        'their targets, outcome class and exit status compared), on six stub personalities - full (every SDR type of IPMI '
+        'ch. 43, non-linear sensors with raw 0 / unused thresholds, sensors flagged reading/state unavailable, a channel '
+        'without link, an HPM.1 upgrade agent that takes a whole small image), minimal (C1h), plain, sdrtypes, nonlinear, '
+        'unavailable - and with a fault at every (sampled) request index, at the session set-up and at the session '
+        'tear-down (alone and after a failed command): a completion code, IpmiTimeoutError, every other exception class of '
+        'pyipmi/errors.py and socket.timeout, as the library\'s own interfaces raise them; the end of main (message, '
+        'status / escaping exception) is compared with the Lean model of the except clauses and the try/finally, the Python '
+        'error of a printing handler with the Lean model of the handlers; (2) option vectors: all options in -c v / -cv / grouped-flag '
         'forms, repeated, any order, routing literals, interface options, compared field by field with the Lean model of main '
         'and with the values that were generated; (3) raw requests of arbitrary LUN / NetFn / bytes incl. out-of-range and '
         'malformed words (request seen by the BMC, stdout, exit); (4) lookup vectors (prefixes, unknown words, words containing '
@@ -50,8 +57,27 @@ ASSUMPTIONS = [
     'the exit status of that run is not judged',
     'between two main() runs of one process the harness resets what the tool itself keeps per process and the property does '
     'not name: the module global json_output (-J) and the log handlers main() adds (-v)',
-    'a table entry must not end with a Python error on a fault-free run against either stub profile (violation '
-    'C20:python-error:*); with an injected fault, a rejected literal or missing arguments a Python error is an observation',
+    'a table entry must not end with a Python error on a fault-free run against any stub profile, numbers written in '
+    'decimal or hex included (violation C20:python-error:*); with an injected fault a Python error that is not a class of '
+    'pyipmi.errors / socket.timeout, a rejected literal of another form (octal, binary, underscores, leading zero ...) and '
+    'missing arguments are observations',
+    'a class of pyipmi.errors or socket.timeout that leaves main() as an exception is a violation wherever it comes from '
+    '(C20:error-exit:main:unmapped-error; raised by ipmi.close(): C20:error-exit:main:close-error): the traceback Python '
+    'prints for it is not counted as "a message", its exit status 1 not as the tool\'s',
+    'the faults are raised by the substituted interface (the observation point the property names); that the real RMCP '
+    'interface reports an unanswered request as socket.timeout / RetryError and the ipmitool back-end as '
+    'IpmiConnectionError was confirmed once by hand, not on every run',
+    '`hpm install` takes a time-out of Activate Firmware for "activation under way" (HPM.1: the IPM controller may '
+    'restart) - not judged as a swallowed time-out; magnitudes that overflow a float (e^x, 10^x of huge x) are not generated',
+    'the translator reads the handler facts off the AST with fixed idioms (`if p is None: return`, `hasattr(s, ...)`, '
+    '`if states is None`, the except classes around convert_sensor_raw_to_value); another correct idiom shows as a '
+    'model/code disagreement, not as silence',
+    'observations of the audit that the property text does not decide (kept out of the verdict): -b <channel> builds the '
+    'one-hop routing [(0x20, channel, 0)] (the property names target address and explicit routing -r; -b is compared with '
+    'the model only); `sdr list` and the compact branch of `sdr show` read the sensor on LUN 0 (the CLI is compared with '
+    'the API call sequence it makes, the owner LUN is C07/C16 matter); -L accepts user / operator / administrator only '
+    '(callback / oem -> KeyError: not generated); Aardvark pullups=off / power=off are parsed to False and handed to the '
+    'interface as given (that aardvark.py treats False as "not given" is outside ipmitool.py)',
     'the as-shipped counter-example theorems are about a frozen copy of the pinned table (Lemmas/CliAsShipped.lean)',
 ]
 TRUSTED = ['harness/translate/cli.py', 'harness/sim/bmc20.py', 'harness/props/c20.py',
@@ -406,7 +432,7 @@ def entry_specs():
         'sensor rearm': ([[('n', 0x30)], [('n', 0x31)], [('n', 7)]], lambda v: lambda i: i.rearm_sensor_events(v[0])),
         'sdr list': ([[]], lambda v: _sdr_list),
         'sdr raw': ([[('n', 1)], [('n', 2)], [('n', 77)], [('n', 5)], [('n', 0x20)]], lambda v: lambda i: i.get_device_sdr(v[0])),
-        'sdr show': ([[('n', x)] for x in (1, 2, 77, 3, 4, 6, 9, 11, 12, 0x20, 0x21, 0x22, 0x23, 0x25)],
+        'sdr show': ([[('n', x)] for x in (1, 2, 77, 3, 4, 6, 9, 11, 12, 0x20, 0x21, 0x22, 0x23, 0x25, 0x30, 0x31)],
                      lambda v: lambda i: _sdr_show(i, v[0])),
         'sdr showall': ([[]], lambda v: _sdr_showall),
         'fru print': ([[], [('n', 0)], [('n', 0), ('w', 'all')], [('n', 1)]],
@@ -787,7 +813,11 @@ def record_facts(rec, readings):
     sensor record the linearisation code and the sign of x = M*raw + B (K1 = K2 = 0 in the stub) of the reading
     and of the six threshold bytes in the order `sdr show` prints them."""
     rid, rtype = rec[0] | rec[1] << 8, rec[3]
-    d = {'id': rid, 'type': rtype, 'lin': None, 'reading': None, 'thresholds': []}
+    d = {'id': rid, 'type': rtype, 'lin': None, 'reading': None, 'thresholds': [], 'available': None}
+    if rtype in (0x01, 0x02):
+        rd = readings.get(rec[7])
+        # table 35-15 byte 3 bit 5: reading/state unavailable
+        d['available'] = None if rd is None or rd[0] != 0 else not rd[2] & 0x20
     if rtype != 0x01:
         return d
     b = rec[5:]
@@ -840,11 +870,14 @@ def predict_python_error(ctx, name, args, profile):
             e = ask('sdrshow %d' % r['type'])
             if e:
                 return e
-        if r['lin'] is None:
-            continue
-        cells = ([r['reading']] if r['reading'] else []) + (r['thresholds'] if name != 'sdr list' else [])
-        for sg in cells:
-            e = ask('cell %s %d %s' % (cmd, r['lin'], sg))
+        if r['lin'] is not None:
+            cells = ([r['reading']] if r['reading'] else []) + (r['thresholds'] if name != 'sdr list' else [])
+            for sg in cells:
+                e = ask('cell %s %d %s' % (cmd, r['lin'], sg))
+                if e:
+                    return e
+        if name != 'sdr list' and r['available'] is not None:
+            e = ask('showstate %d' % (1 if r['available'] else 0))
             if e:
                 return e
     return None
@@ -867,7 +900,7 @@ def tie_python_error(ctx, name, vals, argv, profile, o):
 # ------------------------------------------------------------------------------------- entries
 def _profiles_of(name):
     if name.startswith('sdr'):
-        return ('full', 'minimal', 'plain', 'sdrtypes', 'nonlinear')
+        return ('full', 'minimal', 'plain', 'sdrtypes', 'nonlinear', 'unavailable')
     return ('full', 'minimal', 'plain')
 
 
@@ -1785,6 +1818,7 @@ def _probe(ctx):
         'numeric_arguments_accept_hex: base10Args = []': d['int10'] == '-' and d['optint10'] == '-',
         'portstate_no_python_error: linkNoneGuard': d['link'] == '1',
         'sdr_show_no_python_error: idStringGuard, entityGuard': d['idstr'] == '1' and d['entity'] == '1',
+        'sdr_show_state_no_python_error: stateNoneGuard': d['state'] == '1',
         'sensor_values_no_python_error: catchesArithmetic': bool(d['catch']) and all(
             set(v.split('+')) & {'ArithmeticError', 'Exception', 'BaseException'} or
             (set(v.split('+')) >= {'ValueError', 'ZeroDivisionError'}) for v in d['catch'].values()),
@@ -1799,6 +1833,8 @@ def _family(sig):
     """signatures that are the same kind of defect seen through different entries"""
     t = sig.split(':')
     if sig.startswith('C20:python-error:') and len(t) >= 4:
+        if t[3] == 'ValueError':
+            return 'python-error:literal'
         what = t[2].split(' ')[0]
         return 'python-error:%s:%s' % ('option' if what == 'option' else 'picmg' if what == 'picmg' else
                                        'sdr' if what == 'sdr' else 'other', t[3])
@@ -1841,6 +1877,10 @@ def run(ctx):
         ctx.violate = plain_violate
         _confirm_single_runs(ctx, first)
         _one_of_each_first(ctx)
+        try:
+            os.remove(_hpm_small())         # scratch file; the replay writes it again
+        except OSError:
+            pass
     ctx.extra['table_entries'] = len(snap['commands'])
     ctx.extra['api_methods'] = len(snap['api'])
     ctx.extra['observations'] = dict((k, v) for k, v in ctx.dist.items() if str(k).startswith('obs:'))
@@ -1873,6 +1913,7 @@ def search(ctx):
 
 
 def replay(ctx, v):
+    _hpm_small()            # the image file an `hpm` argument vector names
     case = v['case']
     kind = case.get('kind')
     argv = case.get('argv', [])
